@@ -30,7 +30,7 @@ var c07 = core.Register(&core.Prop{
 	Shards: func(tier string) int { return pickTier(tier, 8, 16) },
 	Floors: func(c map[string]int64, tier string) []string {
 		var out []string
-		for _, k := range []string{"store_cases", "second_evaluation_cases", "assignments_checked", "log_entries_checked", "forbidden_target_cases", "binding_cases", "frame_checks", "frame_checks_general", "error_runs_frame_checked", "callee_not_a_function_cases", "calls_through_locals", "frame_checks_call_templates", "host_mutation_cases"} {
+		for _, k := range []string{"store_cases", "second_evaluation_cases", "assignments_checked", "log_entries_checked", "forbidden_target_cases", "binding_cases", "frame_checks", "frame_checks_general", "error_runs_frame_checked", "callee_not_a_function_cases", "calls_through_locals", "frame_checks_call_templates", "host_mutation_cases", "rebinding_cases"} {
 			if c[k] == 0 {
 				out = append(out, "coverage floor: no "+k)
 			}
@@ -363,6 +363,63 @@ var c07Bind = core.Mon(c07, "binding-exactness", func(w *core.W, c *BindCase) {
 	}
 })
 
+// RebindCase: a local that already holds a value is bound again - to an equal number written differently, to NaN, to a
+// value of another kind that compares equal under some notion of equality. The second binding wins, exactly.
+type RebindCase struct {
+	First  string `json:"first"`
+	Second string `json:"second"`
+}
+
+var rebindPairs = [][2]string{{"7", "7.000"}, {"7.000", "7"}, {"1.50", "1.5"}, {"2", "1.5 + 0.5"}, {"5", "toFloat('oops')"}, {"toFloat('oops')", "5"}, {"toFloat('x')", "toFloat('y')"}, {"0", "(0 * -1)"}, {"1e2", "100"},
+	{"100", "1e2"}, {"null", "0"}, {"0", "null"}, {"0", "false"}, {"false", "0"}, {"''", "0"}, {"0", "''"}, {"1", "true"}, {"true", "1"}, {"'1'", "1"}, {"1", "'1'"}, {"d150", "1.5"}, {"1.5", "d150"}, {"[1]", "[1]"},
+	{"'a'", "'a'"}, {"null", "null"}, {"nothing", "null"}, {"0.1 + 0.2", "0.3"}, {"0.30", "0.1 + 0.2"}, {"1 / 3", "0.3333333333333333333333333333333333"}, {"9007199254740993", "9007199254740992 + 1"}}
+
+var c07Rebind = core.Mon(c07, "rebinding", func(w *core.W, c *RebindCase) {
+	data := func() map[string]interface{} { return map[string]interface{}{"d150": decimal.New(150, 2), "x": 3} }
+	w.Eval(2)
+	w.Count("rebinding_cases")
+	w.Nontrivial("rebind:" + c.First + "|" + c.Second)
+	one, err, p, pv := resolveIn(data(), "$a = "+c.First+", $a = "+c.Second+", [$a, "+c.Second+"]")
+	if p || err != nil {
+		w.Skip("rebinding-not-evaluable")
+		_ = pv
+		return
+	}
+	check := func(v interface{}, how string) bool {
+		arr, _ := v.([]interface{})
+		if len(arr) != 2 || obs.SnapshotValues(arr[0]) != obs.SnapshotValues(arr[1]) {
+			w.Violation("rebinding", "C07/rebinding-lost", c, "["+c.Second+" twice]", show(v), "after `$a = "+c.First+"` and then `$a = "+c.Second+"` the local must hold exactly the second value ("+how+")")
+			return false
+		}
+		return true
+	}
+	if !check(one, "one evaluation") {
+		return
+	}
+	// across evaluations on one runner, and in the caller's map
+	d := data()
+	r := formula.NewRunner()
+	r.SetThis(d)
+	var last interface{}
+	for _, f := range []string{"$a = " + c.First, "$a = " + c.Second, "[$a, " + c.Second + "]"} {
+		sc, perr := hostParse([]byte(f), true)
+		if perr != nil {
+			return
+		}
+		var rerr error
+		if pp, _ := core.Call(func() { last, rerr = r.Resolve(context.Background(), sc.Expression) }); pp || rerr != nil {
+			w.Violation("rebinding", "C07/binding-error", c, "a value", fmt.Sprint(rerr), f)
+			return
+		}
+	}
+	if !check(last, "three evaluations on one runner") {
+		return
+	}
+	if arr, _ := last.([]interface{}); len(arr) == 2 && obs.SnapshotValues(d["$a"]) != obs.SnapshotValues(arr[1]) {
+		w.Violation("rebinding", "C07/rebinding-lost", c, show(arr[1]), show(d["$a"]), "the caller's map entry $a after the second binding")
+	}
+})
+
 var c07Frame = core.Mon(c07, "frame", func(w *core.W, c *EvalCase) {
 	sc, err := hostParse([]byte(c.Src), true)
 	if err != nil {
@@ -533,6 +590,11 @@ func runC07(w *core.W) {
 	for i, f := range hostMutFormulas {
 		if w.Mine(i) {
 			c07HostMut(w, &HostMutCase{Src: f})
+		}
+	}
+	for i, pr := range rebindPairs {
+		if w.Mine(i) {
+			c07Rebind(w, &RebindCase{First: pr[0], Second: pr[1]})
 		}
 	}
 	// exactness of bindings
